@@ -104,6 +104,9 @@ pub enum GenerateError {
     /// Struct templates and the structs made from them are not exported yet
     UnimplementedStructTemplate,
 
+    /// A global used by an entry point is not a resource so was not given a place in an argument buffer
+    UnboundGlobal,
+
     /// Bind group (register space) index is outside the range of argument buffers we generate
     UnsupportedBindGroupIndex(u32),
 
